@@ -2,9 +2,11 @@ package linker
 
 import (
 	"fmt"
+	"maps"
 	"os"
 	"path/filepath"
 	"runtime"
+	"slices"
 	"strings"
 
 	"github.com/DDP-Projekt/Kompilierer/cmd/internal/gcc"
@@ -77,7 +79,8 @@ func LinkDDPFiles(options Options) ([]byte, error) {
 	if options.DeleteIntermediateFiles {
 		defer options.Log("Lösche temporäre Dateien")
 	}
-	for path := range options.Dependencies.Dependencies {
+	// in sorted order (not the order of the map), so that the gcc command line and the reported error do not change from run to run
+	for _, path := range slices.Sorted(maps.Keys(options.Dependencies.Dependencies)) {
 		filename := filepath.Base(path)
 		// stdlib and runtime are linked by default
 		// ignore them because of the Duden
@@ -112,7 +115,8 @@ func LinkDDPFiles(options Options) ([]byte, error) {
 	args := append(make([]string, 0), "-o", options.OutputFile, "-O2", "-L"+ddppath.Lib)
 
 	// add all librarie-search-paths
-	for k := range link_objects {
+	search_paths := slices.Sorted(maps.Keys(link_objects))
+	for _, k := range search_paths {
 		args = append(args, "-L"+k)
 	}
 
@@ -120,8 +124,8 @@ func LinkDDPFiles(options Options) ([]byte, error) {
 	args = append(args, input_files...)
 
 	// add external dependencies
-	for _, libs := range link_objects {
-		for _, lib := range libs {
+	for _, k := range search_paths {
+		for _, lib := range link_objects[k] {
 			args = append(args, "-l:"+lib)
 		}
 	}
